@@ -84,7 +84,7 @@ Fixpoint code_lines (ppc : bool) (ls : list str) : list str :=
 Inductive fline :=
 | FComment (mark : char) (text : str)     (* C c * ! d D in column 1 *)
 | FStmt (label : str) (body : str)        (* label field of exactly five columns, column 6 blank, statement from column 7 *)
-| FCont (mark : char) (body : str).       (* five blanks, continuation mark in column 6 *)
+| FCont (mark : char) (body : str).       (* five blanks, continuation mark in column 6 (any non-blank non-letter, `!` included) *)
 
 Definition render_fline (f : fline) : str :=
   match f with
@@ -101,7 +101,7 @@ Definition wf_fline (f : fline) : bool :=
   match f with
   | FComment m t => existsb (N.eqb m) [33; 42; 67; 99; 68; 100]%N && negb (var_early (m :: t))
   | FStmt lab body => (length lab =? 5) && forallb label_char lab && negb (amp_end body) && has_code body
-  | FCont m body => negb (is_alpha m) && negb (py_space m) && negb (N.eqb m 33) && negb (amp_end body) && has_code body
+  | FCont m body => negb (is_alpha m) && negb (py_space m) && (N.eqb m 33 || (negb (amp_end body) && has_code body))
   end.
 
 (* a free-form printer: every statement indented by the same 1..4 blanks *)
